@@ -61,41 +61,90 @@ class VT:
 
 POLICIES = ("rtb", "low", "high", "rr")
 
+ENV_KINDS = ("crash", "fault", "page", "deliver", "early")
+
+
+def kind_of(code: int) -> str:
+    """Kind of a choice option code: thread ids >= 0, timer = -(id+1), env = 1000*(k+1)+opt."""
+    if code < 0:
+        return "timer"
+    if code < 1000:
+        return "thread"
+    return ENV_KINDS[code // 1000 - 1]
+
+
+class Chooser:
+    """Replays a prefix of option indices, then answers 0 (the default); records every
+    choice as (option codes, chosen index).  Shared by all invocations of one execution."""
+
+    def __init__(self, prefix=(), expect=None, env_kinds=()):
+        self.prefix = list(prefix)
+        self.expect = expect
+        self.trace: list[tuple[tuple[int, ...], int]] = []
+        self.env_kinds = set(env_kinds)
+
+    def pick(self, codes) -> int:
+        idx = len(self.trace)
+        if idx < len(self.prefix):
+            ch = self.prefix[idx]
+            if not (0 <= ch < len(codes)):
+                raise InternalError(
+                    f"replay divergence at choice {idx}: want option {ch} of {list(codes)}")
+            if self.expect is not None and idx < len(self.expect):
+                if tuple(self.expect[idx]) != tuple(codes):
+                    raise InternalError(
+                        f"replay divergence at choice {idx}: options {list(codes)} != recorded "
+                        f"{list(self.expect[idx])}")
+        else:
+            ch = 0
+        self.trace.append((tuple(codes), ch))
+        return ch
+
+    def env(self, kind: str, n: int) -> int:
+        """Environment choice among n options (0 = default).  Not recorded when the kind is
+        disabled for this exploration (always the default then)."""
+        if n <= 1 or kind not in self.env_kinds:
+            return 0
+        base = 1000 * (ENV_KINDS.index(kind) + 1)
+        return self.pick([base + i for i in range(n)])
+
+    def choices(self):
+        return [ch for _, ch in self.trace]
+
 
 class Exec:
-    """One controlled execution (possibly spanning several handler invocations)."""
+    """One controlled run (a component harness, or one handler invocation)."""
 
     epoch_counter = 0
 
     def __init__(self, prefix=(), policy="rtb", start=1_700_000_000.0, horizon=300.0,
                  max_steps=400_000, timer_choices=False, line_files=None, expect=None,
-                 random_value=0.5, point_filter=None):
+                 random_value=0.5, chooser=None, tick0=0):
         Exec.epoch_counter += 1
         self.epoch = Exec.epoch_counter
         self.threads: list[VT] = []
         self.now = float(start)
         self.start = float(start)
         self.horizon = self.now + horizon
-        self.prefix = list(prefix)
-        self.expect = expect  # optional list of option tuples for strict replay validation
+        self.chooser = chooser if chooser is not None else Chooser(prefix, expect)
+        self.trace = self.chooser.trace  # shared list
         self.policy = policy
-        self.trace: list[tuple[tuple[int, ...], int]] = []  # (options, chosen index)
         self.steps = 0
         self.max_steps = max_steps
         self.killed = False
-        self.end_reason = None  # None | 'deadlock' | 'horizon' | 'steps' | 'crash' | 'internal'
+        self.end_reason = None  # 'main-returned' | 'deadlock' | 'horizon' | 'steps' | 'crash' | 'internal'
         self.end_detail = None
         self.internal_error = None
         self.timer_choices = timer_choices
         self.line_files = line_files  # set of filenames traced at line granularity
         self.random_value = random_value
-        self.point_filter = point_filter
-        self.tick = 0  # logical clock: incremented at every scheduling step and on demand
+        self.tick = tick0  # logical clock: incremented at every scheduling step and on demand
         self._done = _rt.Event()
         self._terminator = None
         self.main = None
         self.errors = []  # uncaught exceptions in virtual threads (name, exc)
-        self.in_sched = False
+        self.live_at_end = []
+        self.worker_deaths = 0
 
     # ------------------------------------------------------------------ identity
     def me(self) -> VT:
@@ -146,7 +195,7 @@ class Exec:
             return
         try:
             if vt is self.main:
-                self._terminate_from_epilogue("main-returned")
+                self._finish("main-returned")
                 return
             nxt = self._pick(None)
             if nxt is not None:
@@ -164,7 +213,7 @@ class Exec:
         self.killed = True
         self._done.set()
 
-    def _terminate_from_epilogue(self, reason):
+    def _finish(self, reason):
         self.live_at_end = [t for t in self.threads if t.state != DONE]
         self.end_reason = self.end_reason or reason
         self.killed = True
@@ -243,19 +292,7 @@ class Exec:
                 codes.append(-(timer_t.id + 1))
         if len(codes) == 1:
             return opts[0]
-        idx = len(self.trace)
-        if idx < len(self.prefix):
-            ch = self.prefix[idx]
-            if not (0 <= ch < len(codes)):
-                raise InternalError(
-                    f"replay divergence at choice {idx}: want option {ch} of {codes}")
-            if self.expect is not None and idx < len(self.expect):
-                if tuple(self.expect[idx]) != tuple(codes):
-                    raise InternalError(
-                        f"replay divergence at choice {idx}: options {codes} != recorded {self.expect[idx]}")
-        else:
-            ch = 0
-        self.trace.append((tuple(codes), ch))
+        ch = self.chooser.pick(codes)
         code = codes[ch]
         if code < 0:
             t = timer_t
@@ -286,8 +323,6 @@ class Exec:
         if self.killed:
             raise Killed()
         me = self.me()
-        if self.in_sched:
-            return
         try:
             nxt = self._pick(me)
         except InternalError as e:
@@ -318,14 +353,24 @@ class Exec:
     def sleep(self, d):
         self.block(lambda: False, d, on=("sleep", d))
 
+    def env_choice(self, kind, n):
+        try:
+            return self.chooser.env(kind, n)
+        except InternalError as e:
+            self._internal(e)
+            raise Killed() from None
+
     def _snapshot(self):
         out = []
         for t in self.threads:
             on = None
             if t.on is not None:
                 o = t.on
-                on = o if isinstance(o, tuple) and all(isinstance(x, (str, int, float)) for x in o) \
-                    else (type(o[0]).__name__, o[1]) if isinstance(o, tuple) else type(o).__name__
+                if isinstance(o, tuple) and len(o) == 2:
+                    a = o[0] if isinstance(o[0], (str, int, float)) else type(o[0]).__name__
+                    on = (a, o[1])
+                else:
+                    on = repr(o)
             out.append({"id": t.id, "name": t.name, "state": _STATE[t.state], "on": on,
                         "deadline": None if t.deadline is None else round(t.deadline - self.start, 3)})
         return out
@@ -356,7 +401,6 @@ class Exec:
         """Run `main` as the first virtual thread; returns when the execution is over."""
         global CUR
         CUR = self
-        self.live_at_end = []
         vt = self.spawn(main, name)
         self.main = vt
         vt.baton.release()
